@@ -33,6 +33,14 @@ func (iterator *Iterator[T]) Next() bool {
 		iterator.element = nil
 		return false
 	}
+	if iterator.index != 0 && (iterator.element == nil || iterator.element.next == nil) {
+		// the list was modified since the last move: find the element by its position
+		iterator.element = iterator.list.first
+		for e := 0; e != iterator.index; e++ {
+			iterator.element = iterator.element.next
+		}
+		return true
+	}
 	if iterator.index != 0 {
 		iterator.element = iterator.element.next
 	} else {
@@ -51,6 +59,14 @@ func (iterator *Iterator[T]) Prev() bool {
 	if !iterator.list.withinRange(iterator.index) {
 		iterator.element = nil
 		return false
+	}
+	if iterator.index != iterator.list.size-1 && (iterator.element == nil || iterator.element.prev == nil) {
+		// the list was modified since the last move: find the element by its position
+		iterator.element = iterator.list.first
+		for e := 0; e != iterator.index; e++ {
+			iterator.element = iterator.element.next
+		}
+		return true
 	}
 	if iterator.index == iterator.list.size-1 {
 		iterator.element = iterator.list.last
